@@ -3,22 +3,24 @@ EXTENDS BrieImpl
 \* index alphabets (BITS = 1, LW = 1: sparse-array index = i \div 2, leaf = 2 words, levels 0..2 for i < 16)
 \*   0,1 same word; 0,2 same leaf; 0,4 sibling leaves; 9 / 15 need two raiseLevel steps from a leaf at 0
 IdxQ == {0, 1, 4, 9}
+IdxQ3 == {0, 1, 9}
 IdxT == {0, 1, 2, 4, 9, 15}
 SeqsUpTo(A, n) == UNION {[1..k -> A] : k \in 0..n}
 \* 2 threads x 2 inserts; the threads are symmetric, so keep one representative of each mirrored pair
 Leq(s, t) == \/ Len(s) < Len(t)
              \/ Len(s) = Len(t) /\ \A i \in 1..Len(s) : (\A j \in 1..(i - 1) : s[j] = t[j]) => s[i] <= t[i]
 P22(A) == {f \in [1..2 -> [1..2 -> A]] : Leq(f[1], f[2])}
-PQ22 == P22(IdxQ)
+PQ22 == P22(IdxQ3)
+PM22 == P22(IdxQ)
 PT22 == P22(IdxT)
 \* 3 threads x 1 insert
 PT31 == {f \in [1..3 -> [1..1 -> IdxT]] : f[1][1] <= f[2][1] /\ f[2][1] <= f[3][1]}
-PQ31 == {f \in PT31 : <<f[1][1], f[2][1], f[3][1]>> \in {<<0, 1, 9>>, <<0, 0, 4>>}}
+PQ31 == {f \in PT31 : <<f[1][1], f[2][1], f[3][1]>> \in {<<0, 1, 9>>}}
 \* 3 threads: 2,1,1 inserts
 PT32 == {f \in [1..3 -> SeqsUpTo(IdxQ, 2)] : f[1] = <<0, 9>> /\ f[2] = <<4>> /\ f[3] \in {<<0>>, <<9>>}}
 \* replay space (quick): programs whose walks are replayed on the real SparseBitMap<1>
 PR == {f \in [1..2 -> SeqsUpTo({0, 1, 4, 9}, 2)] : Len(f[1]) = 2 /\ Len(f[2]) = 1}
-PRq == {f \in PR : f[1] \in {<<0, 9>>, <<9, 1>>} /\ f[2] \in {<<0>>, <<4>>}}
+PRq == {f \in PR : <<f[1], f[2]>> \in {<<<<0, 9>>, <<0>>>>, <<<<9, 1>>, <<4>>>>}}
 \* liveness (small)
 PL == {f \in [1..2 -> [1..1 -> {0, 1, 9}]] : TRUE}
 =============================================================================
